@@ -19,6 +19,7 @@ mod c12;
 mod c13;
 mod c14;
 mod c15;
+mod c16;
 mod c19;
 mod prog;
 
@@ -127,6 +128,8 @@ fn main() {
         "c13" => c13::run(&ctx),
         "c14" => c14::run(&ctx),
         "c15" => c15::run(&ctx),
+        #[cfg(not(feature = "inproc"))]
+        "c16" => c16::run(&ctx),
         "c19" => c19::run(&ctx),
         "c19dump" => c19::dump(&ctx),
         _ => {
